@@ -197,6 +197,17 @@ def jwt_endpoint_tokens():
         for pl in (b'{"iss":"cj","sub":"cj"}', b'{"iss":"c1","sub":"1"}'):
             for kind in ("client_assertion", "jwt_bearer", "rfc9068"):
                 out.append((kind, b64(_json.dumps(hdr).encode()) + "." + b64(pl) + "." + b64(b"sig")))
+    # the header names every registered signature algorithm in turn, whatever kind of key the server holds for the sender
+    from authlib.jose import JsonWebSignature
+    kids = [None] + [k.kid for k in c10.V(issuer=c10.ISS, resource_server=c10.RS).get_jwks().keys]
+    for alg in sorted(JsonWebSignature.ALGORITHMS_REGISTRY):
+        for kid in kids:
+            hdr = {"alg": alg, "typ": "at+jwt"}
+            if kid is not None:
+                hdr["kid"] = kid
+            for kind, pl in (("client_assertion", b'{"iss":"cj","sub":"cj"}'), ("jwt_bearer", b'{"iss":"c1","sub":"1"}'), ("rfc9068", b'{"iss":"x"}')):
+                for sig in (b"s" * 64, b"s" * 256):
+                    out.append((kind, b64(_json.dumps(hdr).encode()) + "." + b64(pl) + "." + b64(sig)))
     for over in ({"sub": DROP}, {"iss": DROP}, {"sub": 5}, {"iss": ["cj"]}, {"aud": DROP}, {"aud": 5}, {"aud": [5]}, {"exp": "x"}, {"exp": DROP}, {"exp": True}, {"jti": DROP}, {"jti": 5},
                  {"jti": {"a": 1}}, {"sub": "ghost", "iss": "ghost"}, {"sub": "c1", "iss": "c1"}, {"iat": "x"}, {"nbf": "x"}, {"sub": "é", "iss": "é"}, {"sub": "\"", "iss": "\""}):
         out.append(("client_assertion", client_assertion(**over)))
@@ -377,12 +388,43 @@ SEG_POOL = ["", "!!!", "A", "AA", b64(b"{"), b64(b"[]"), b64(b"5"), b64(b"null")
             b64(b'{"alg":"A128KW","enc":"A128GCM","zip":5}'), b64(b"{}"), b64(b'{"alg":"HS256","kid":"unknown"}'), LONG]
 
 
-def jose_call(api, arg):
+_FAMILY_KEYS = {}
+
+
+def family_key(kty, form):
+    from authlib.jose import JsonWebKey, KeySet, OctKey
+    if not _FAMILY_KEYS:
+        _FAMILY_KEYS["oct"] = OctKey.import_key(b"0123456789abcdef0123456789abcdef", {"kid": "k1"})
+        _FAMILY_KEYS["RSA"] = JsonWebKey.generate_key("RSA", 2048, {"kid": "k1"}, is_private=True)
+        _FAMILY_KEYS["EC"] = JsonWebKey.generate_key("EC", "P-256", {"kid": "k1"}, is_private=True)
+        _FAMILY_KEYS["OKP"] = JsonWebKey.generate_key("OKP", "Ed25519", {"kid": "k1"}, is_private=True)
+        _FAMILY_KEYS["OKPX"] = JsonWebKey.generate_key("OKP", "X25519", {"kid": "k1"}, is_private=True)
+    k = _FAMILY_KEYS[kty]
+    if form == "obj":
+        return k
+    if form == "dict":
+        return dict(k.as_dict(is_private=True))
+    if form == "keyset":
+        return KeySet([k])
+    if form == "jwks_dict":
+        return {"keys": [dict(k.as_dict(is_private=True))]}
+    return k.as_pem(is_private=True)
+
+
+def jose_call(api, arg, kty=None, form=None):
     from authlib.jose import JsonWebSignature, JsonWebEncryption, JsonWebToken, JsonWebKey, KeySet
     from authlib.jose.errors import JoseError
     key = JsonWebKey.import_key(JOSE_KEY)
     try:
-        if api == "jws_compact":
+        if api == "alg_family":
+            k = family_key(kty, form)
+            if form in ("keyset", "jwks_dict"):
+                JsonWebToken(list(JsonWebSignature.ALGORITHMS_REGISTRY)).decode(arg, k)
+            else:
+                JsonWebSignature().deserialize_compact(arg, k)
+        elif api == "alg_family_jwe":
+            JsonWebEncryption().deserialize_compact(arg, family_key(kty, form))
+        elif api == "jws_compact":
             JsonWebSignature().deserialize_compact(arg, key)
         elif api == "jws_json":
             JsonWebSignature().deserialize_json(arg, key)
@@ -400,7 +442,7 @@ def jose_call(api, arg):
     except JoseError as e:
         return {"kind": "jose_error", "error": e.error}
     except Exception as e:
-        return {"kind": "raised", "exc": type(e).__name__, "site": site_of(e), "msg": str(e)[:120]}
+        return {"kind": "raised", "exc": "ValueError" if isinstance(e, ValueError) else type(e).__name__, "exc_type": type(e).__name__, "site": site_of(e), "msg": str(e)[:120]}
 
 
 def valid_jws():
@@ -505,6 +547,38 @@ def cases(rng, tier):
                 out.append({"t": "jose", "api": api, "arg": ".".join(parts)})
         for arg in ("", "a", "a.b", "a.b.c.d", "..", tok + ".", "." + tok, tok.replace(".", ".."), "é.é.é", LONG):
             out.append({"t": "jose", "api": api, "arg": arg})
+    # the header names every registered algorithm in turn against every kind and form of verification key
+    from authlib.jose import JsonWebSignature, JsonWebEncryption
+    for kty in ("oct", "RSA", "EC", "OKP"):
+        for form in ("obj", "dict", "keyset", "jwks_dict", "pem"):
+            if kty == "oct" and form == "pem":
+                continue
+            for alg in sorted(JsonWebSignature.ALGORITHMS_REGISTRY):
+                hdr = b64(json.dumps({"alg": alg, "kid": "k1"}).encode())
+                out.append({"t": "jose", "api": "alg_family", "kty": kty, "form": form, "arg": hdr + "." + b64(b'{"iss":"i"}') + "." + b64(b"s" * 64)})
+            if form in ("obj", "dict", "pem"):
+                for alg in sorted(JsonWebEncryption.ALG_REGISTRY):
+                    hdr = b64(json.dumps({"alg": alg, "enc": "A128GCM", "kid": "k1", "epk": {"kty": "EC", "crv": "P-256", "x": "AA", "y": "AA"}}).encode())
+                    out.append({"t": "jose", "api": "alg_family_jwe", "kty": kty, "form": form,
+                                "arg": ".".join([hdr, b64(b"k" * 40), b64(b"0" * 12), b64(b"ct"), b64(b"t" * 16)])})
+    # ECDH-ES: the sender's ephemeral key and the PartyU / PartyV values come from the (attacker-written) header
+    EPKS = [DROP, 5, "x", [], {}, None, {"kty": "EC"}, {"kty": "EC", "crv": "P-999", "x": "AA", "y": "AA"}, {"kty": "EC", "crv": "P-256", "x": 5, "y": "AA"},
+            {"kty": "EC", "crv": "P-256", "x": "!!!", "y": "AA"}, {"kty": "EC", "crv": "P-256", "x": "AQ", "y": "AQ"}, {"kty": "EC", "crv": "P-384", "x": "AQ", "y": "AQ"},
+            {"kty": "EC", "crv": 5, "x": "AA", "y": "AA"}, {"kty": "EC", "crv": ["P-256"], "x": "AA", "y": "AA"}, {"kty": "OKP", "crv": "Ed25519", "x": "AA"},
+            {"kty": "OKP", "crv": "X25519", "x": "AA"}, {"kty": "OKP", "crv": "X25519", "x": b64(b"x" * 32)}, {"kty": "OKP", "crv": "X448", "x": b64(b"x" * 56)},
+            {"kty": "OKP", "crv": "P-256", "x": "AA"}, {"kty": "OKP", "crv": "X25519", "x": 5}, {"kty": "OKP", "crv": "X25519"}, {"kty": "oct", "k": "AA"},
+            {"kty": "EC", "crv": "P-256", "x": "é", "y": "é"}, {"crv": "P-256", "x": "AA", "y": "AA"}, {"kty": "RSA", "n": "AQ", "e": "AQAB"}]
+    for kty in ("EC", "OKPX"):
+        for alg in ("ECDH-ES", "ECDH-ES+A128KW"):
+            for epk in EPKS:
+                for extra in ({}, {"apu": 5}, {"apv": "!!!"}, {"apu": ["a"]}):
+                    if extra and epk is not EPKS[-9]:
+                        continue
+                    h = dict({"alg": alg, "enc": "A128GCM"}, **extra)
+                    if epk is not DROP:
+                        h["epk"] = epk
+                    out.append({"t": "jose", "api": "alg_family_jwe", "kty": kty, "form": "obj",
+                                "arg": ".".join([b64(json.dumps(h).encode()), b64(b"k" * 24) if "KW" in alg else "", b64(b"0" * 12), b64(b"ct"), b64(b"t" * 16)])})
     for api in ("jwe_compact",):
         for n in (5,):
             good = [b64(b'{"alg":"dir","enc":"A128GCM"}'), "", b64(b"0" * 12), b64(b"ct"), b64(b"t" * 16)]
@@ -569,7 +643,7 @@ def impl(c):
         return call_jwt_endpoint(c["ep"], c["token"])
     if t == "jose":
         ms.install_clock(); CLOCK.now = 1_000_000
-        return jose_call(c["api"], c["arg"])
+        return jose_call(c["api"], c["arg"], c.get("kty"), c.get("form"))
     raise AssertionError(t)
 
 
@@ -642,7 +716,7 @@ def oracle(c, out):
     if out["kind"] == "raised" and c["t"] == "jose" and jose_documented(c, out):
         return v
     if out["kind"] == "raised":
-        bad(f"{c['t']}/{ep}: {out['exc']} escaped from {out['site']}: {out['msg']}", kind="crash", endpoint=f"{c['t']}/{ep}" if c["t"] != "oauth2" else "oauth2/" + OAUTH2_ENDPOINTS[ep][0],
+        bad(f"{c['t']}/{ep}: {out.get('exc_type', out['exc'])} escaped from {out['site']}: {out['msg']}", kind="crash", endpoint=f"{c['t']}/{ep}" if c["t"] != "oauth2" else "oauth2/" + OAUTH2_ENDPOINTS[ep][0],
             exc=out["exc"], site=out["site"])
         return v
     if c["t"] == "jose":
@@ -674,8 +748,10 @@ def jose_documented(c, out):
     """exceptions outside JoseError that the library documents / its own tests pin for JOSE calls"""
     if out["exc"] == "ValueError" and out["site"] in ("jose/rfc7517/key_set.py:find_by_kid", "jose/rfc7519/jwt.py:load_key"):
         return True          # "no such key in the set": documented (:raise: ValueError) and relied upon by the client integrations to refetch the JWKS
-    if c["api"].startswith("jwe") and out["exc"] in ("ValueError", "InvalidTag", "InvalidUnwrap", "InvalidKey") and (
-            out["site"].startswith(("jose/rfc7518/", "jose/drafts/", "jose/rfc8037/")) or out["site"] == "outside-library"):
+    if c["api"] == "alg_family" and out["exc"] == "ValueError" and out["site"].startswith(("jose/rfc7517/", "jose/rfc7518/", "jose/rfc8037/")):
+        return True          # the verification key cannot be used with the algorithm the header names: ValueError from the key import, as tests/jose/test_jws.py pins
+    if c["api"].startswith(("jwe", "alg_family_jwe")) and out["exc"] in ("ValueError", "InvalidTag", "InvalidUnwrap", "InvalidKey") and (
+            out["site"].startswith(("jose/rfc7518/", "jose/drafts/", "jose/rfc8037/") + (("jose/rfc7517/", "common/encoding.py") if c["api"] == "alg_family_jwe" else ())) or out["site"] == "outside-library"):
         return True          # decryption failures: tests/jose/test_jwe.py asserts ValueError / InvalidUnwrap
     return False
 
